@@ -8,6 +8,7 @@ PROP = "C15"
 MODEL_VO = ["theories/Model/PdoLink.vo"]
 COQ_IMPORTS = "From CV Require Import Model.Codec Model.Pdo Model.PdoLink."
 COQ_RUN = "run_link"
+ANCHORS = [("canopen.pdo.base", "PdoMap.on_message"), ("canopen.pdo.base", "PdoMap.transmit"), ("canopen.pdo.base", "PdoMap.remote_request"), ("canopen.pdo.base", "PdoMap.subscribe"), ("canopen.pdo.base", "PdoMap.add_callback"), ("canopen.pdo.base", "PdoMap.wait_for_reception"), ("canopen.network", "Network.subscribe"), ("canopen.network", "Network.notify")]
 COQ_CASE_TYPE = "link_case"
 RULE = ("case = up to 4 producer maps (LocalNode TPDOs) and 4 consumer maps (RemoteNode TPDOs) on one synchronous bus, each with "
         "a COB-ID (distinct or colliding), enabled / RTR flags and a bit layout as in C05, then a sequence of write / transmit / "
